@@ -2,6 +2,7 @@ package main
 
 import (
 	"fmt"
+	"time"
 
 	"verif/harness/adapter"
 	"verif/harness/gen"
@@ -37,6 +38,26 @@ func c02One(c *Ctx, mc memClient, op *rm.Op, serial uint32, a rm.Vals, p gen.Pre
 	c.Res.Eval(1)
 	c.Res.Count("calls:"+op.Name, 1)
 	ce := op.Expect(serial, a, reply)
+	if c02Oracle != nil {
+		// civil times / days that do not exist in the process zone are outside the statement
+		for name, e := range ce.Fields {
+			if e.Mode != rm.Must || e.V.Zero {
+				continue
+			}
+			switch e.V.K {
+			case rm.DateTime:
+				if !c02Oracle.civilExists(e.V.Y, e.V.Mo, e.V.D, e.V.H, e.V.Mi, e.V.S) {
+					e.Mode = rm.DontCare
+					ce.Fields[name] = e
+				}
+			case rm.Date:
+				if !c02Oracle.dayHasInstant(e.V.Y, e.V.Mo, e.V.D) {
+					e.Mode = rm.DontCare
+					ce.Fields[name] = e
+				}
+			}
+		}
+	}
 	outcome := "value"
 	if out.Err != "" {
 		outcome = "error"
@@ -71,7 +92,74 @@ func c02One(c *Ctx, mc memClient, op *rm.Op, serial uint32, a rm.Vals, p gen.Pre
 	}
 }
 
+var c02Oracle *zoneOracle // set in zone mode
+
+// c02Zone: replies whose date / date-time fields fall on the days the process zone changes its offset.
+func c02Zone(c *Ctx) {
+	zone := time.Local.String()
+	c.Res.Rule = "zone mode: replies of the operations carrying dates and date-times, with those fields on and around the days the process time zone (TZ) changes its offset; the returned civil values are judged against the reference decoding; civil times / days that do not exist in the zone are don't-care; distinct = distinct (zone, operation, field values)"
+	c.Res.Note("zone", zone)
+	r := c.Rng("zone/" + zone)
+	z := newZoneOracle(time.Local)
+	c02Oracle = z
+	known := []uint32{r.Serial()}
+	clients := c01Clients(r, known)
+	// instants around the zone's transitions (all years with two digit system dates, plus a sample of others)
+	moments := []int64{}
+	for i := 1; i < len(z.periods); i++ {
+		s := z.periods[i].start
+		if (s >= civilUnix(2000, 1, 2, 0, 0, 0) && s < civilUnix(2068, 12, 30, 0, 0, 0)) || i%17 == int(c.Seed%17) {
+			moments = append(moments, s)
+		}
+	}
+	if len(moments) == 0 {
+		moments = append(moments, 1700000000)
+	}
+	ops := []*rm.Op{rm.FindOp("GetStatus"), rm.FindOp("GetTime"), rm.FindOp("SetTime"), rm.FindOp("GetEvent"), rm.FindOp("GetCardByIndex"), rm.FindOp("GetCardByID"), rm.FindOp("GetTimeProfile"), rm.FindOp("GetDevice")}
+	N := c.N(6000, 60000)
+	for i := 0; i < N; i++ {
+		op := ops[r.Pick(len(ops))]
+		serial := known[0]
+		a, p := r.Args(op)
+		reply := validReply(r, op, serial, a)
+		l := op.ReplyLayout()
+		for _, f := range l.Fields {
+			T := moments[r.Pick(len(moments))] + int64(r.Pick(50*3600)) - 25*3600
+			if r.Chance(0.3) {
+				T = moments[r.Pick(len(moments))] + int64(r.Pick(7200)) - 3600
+			}
+			cv := civilOf(T, time.Local)
+			if cv.y < 1 || cv.y > 9999 {
+				continue
+			}
+			switch f.Kind {
+			case rm.Date:
+				if z.dayHasInstant(cv.y, cv.m, cv.d) && !(cv.y == 1 && cv.m == 1 && cv.d == 1) {
+					rm.EncodeField(reply, f, rm.DateVal(cv.y, cv.m, cv.d))
+				}
+			case rm.DateTime:
+				rm.EncodeField(reply, f, rm.DateTimeVal(cv.y, cv.m, cv.d, cv.h, cv.mi, cv.s))
+			case rm.SysDate:
+				if cv.y >= 2000 && cv.y <= 2068 {
+					rm.EncodeField(reply, f, rm.Val{K: rm.SysDate, Y: cv.y, Mo: cv.m, D: cv.d})
+					if tf := l.Field("SystemTime"); tf != nil {
+						rm.EncodeField(reply, *tf, rm.Val{K: rm.SysTime, H: cv.h, Mi: cv.mi, S: cv.s})
+					}
+				}
+			}
+		}
+		if op.Name == "GetStatus" {
+			rm.EncodeField(reply, *l.Field("EventIndex"), rm.UVal(rm.U32, uint64(1+r.Pick(100000))))
+		}
+		c02One(c, clients[r.Pick(len(clients))], op, serial, a, p, reply, int64(i), "zone:"+zone)
+	}
+}
+
 func c02(c *Ctx) {
+	if c.Mode == "tz" {
+		c02Zone(c)
+		return
+	}
 	c.Res.Rule = "replies with a correct header and every payload field drawn from its full byte-pattern domain (valid, boundary, sentinel, every out-of-domain class; random bytes outside fields) are played to all 31 reply-bearing operations through the in-memory driver; the returned value is judged against the reference decoding (three-valued per field); distinct = distinct (operation, per-field class vector, outcome) keys"
 	r := c.Rng("main")
 	known := []uint32{r.Serial(), r.Serial(), r.Serial()}
@@ -96,7 +184,7 @@ func c02(c *Ctx) {
 	// ---- per-field sweeps
 	caseNo := int64(100_000_000)
 	slot := 0
-	mine := func() bool { slot++; return slot%c.NBatch == c.Batch }
+	mine := func() bool { slot++; return slot%c.MNBatch == c.MBatch }
 	mc := clients[0]
 	sweepField := func(op *rm.Op, f rm.Field, patterns func(yield func([]byte)), tag string) {
 		patterns(func(b []byte) {
@@ -200,7 +288,7 @@ func c02(c *Ctx) {
 				full := c.Thorough() && op.Name == "GetCardByIndex" && f.Name == "From"
 				if full {
 					sweepField(op, f, func(y func([]byte)) {
-						for v := c.Batch; v < 100000000; v += c.NBatch {
+						for v := c.MBatch; v < 100000000; v += c.MNBatch {
 							y([]byte{bcdb(v / 1000000), bcdb(v / 10000 % 100), bcdb(v / 100 % 100), bcdb(v % 100)})
 						}
 					}, "sweep/date-all-1e8")
